@@ -752,9 +752,12 @@ func main() {
 	}
 	c.Res.Explanation = "stateless exhaustive exploration of real ToolsNode.Invoke/Stream calls (bare and inside a compiled graph) with recording tools; oracle per execution = the statement: N tool messages, the i-th with the i-th call id and f(name_i,args_i); the streamed chunks concatenate position-wise (concatMessageArray semantics) to the same list; a failing tool fails the call with an error that errors.Is its error; a panicking tool gives a run error, no crashed goroutine, no hang, nothing left blocked; an unknown name is an error, or with a handler the handler's answer at that index"
 	if quick {
-		c.Res.Notes = append(c.Res.Notes, "quick bounds: {0,1,2} for every Invoke scenario, every Stream scenario with <= 2 calls and every Stream scenario that fails before the merge; Stream of 3 calls that reaches the merge (all tools yield): invokable-only tools on the bare node {0,1} (three lists {0,1,2}), inside a graph {0} (three lists {0,1}); streamable-only tools (one or two chunks, mid-stream error) {0}")
+		c.Res.Notes = append(c.Res.Notes,
+			"quick menu (union): (a) every call list x six kind patterns, no failure, all tools yield; (b) every kind assignment for <= 2 calls and for Invoke of 3 calls; (c) every subset of failing tools/handler (error, panic, mid-stream error) with uniform kinds inv / s2 (and both for <= 2 calls); (d) every yield assignment for Invoke with invokable tools and <= 1 failure and for Stream of <= 2 calls; (e) a configured but unneeded handler for <= 2 calls; each x Invoke/Stream x bare node/graph. The thorough tier runs the full product (except: Stream of 3 calls reaching the merge only with all tools yielding, the six kind patterns and <= 1 mid-stream error; an unneeded handler only on the plain success path)",
+			"quick bounds: {0,1,2} for every Invoke scenario, every Stream scenario with <= 2 calls and every Stream scenario that fails before the merge; Stream of 3 calls that reaches the merge (all tools yield, uniform kinds only): invokable-only tools on the bare node {0,1} (three lists {0,1,2}), inside a graph {0} (three lists {0,1}); streamable-only tools (one or two chunks, at most one mid-stream error) {0}, two-chunk tools inside a graph for three lists only")
 	} else {
-		c.Res.Notes = append(c.Res.Notes, "thorough bounds: {0,1,2,3,unbounded} for every Invoke scenario, every Stream scenario of one call and every Stream scenario that fails before the merge; Stream of 2 calls that reaches the merge and every scenario with a mid-stream error {0,1,2,3}; Stream of 3 calls that reaches the merge (all tools yield, six kind patterns): single-chunk tools {0,1,2}, two-chunk streamable-only tools or a mid-stream error {0,1}, tools implementing both interfaces {0}")
+		c.Res.Notes = append(c.Res.Notes, "thorough menu: the full product, except that Stream of 3 calls reaching the merge is run only with all tools yielding, six kind patterns and <= 1 mid-stream error, and a configured but unneeded handler only on the plain success path",
+			"thorough bounds: {0,1,2,3,unbounded} for every Invoke scenario, every Stream scenario of one call and every Stream scenario that fails before the merge; Stream of 2 calls that reaches the merge and every scenario with a mid-stream error {0,1,2,3}; Stream of 3 calls that reaches the merge (all tools yield, six kind patterns): single-chunk tools {0,1,2}, two-chunk streamable-only tools or a mid-stream error {0,1}, tools implementing both interfaces {0}")
 	}
 
 	all := append(append([]string(nil), toolNames...), unknownName)
